@@ -9,7 +9,7 @@ import tlc
 from common import Ctx, MachineryError, pmap
 
 # deviation flags of the tree under test
-IMPL = dict(Shared=True, SetOnAllPaths=True, ClearOnError=True, CopyOnConstruct=True)
+IMPL = dict(Shared=False, SetOnAllPaths=True, ClearOnError=True, CopyOnConstruct=True)
 INTENDED = dict(Shared=True, SetOnAllPaths=True, ClearOnError=True, CopyOnConstruct=True)
 DOCS = ["plain", "colA", "colB", "multi", "fig", "fail", "share2", "share3", "paged"]
 JUDGE = ["C14_Pure", "C14_Repeatable", "C14_DfUnchanged", "C14_Outcome", "C14_AllRan"]
